@@ -25,6 +25,7 @@ type HarnessSpec struct {
 	TimeoutThorough int
 	Assumptions     []string
 	Note            string
+	NativeDecides   bool // C19: a native assertion failure on a path the engine passed is a counterexample (not an engine error)
 	RPCCoverage     bool // C10: every Msg RPC in the current source must be covered by a "rpc:<component>.<Method>" label
 }
 
